@@ -54,10 +54,19 @@ class _Out:
         return "".join(self.parts)
 
 
-def render(p):
+PREAMBLE_NOPRELUDE = "let { Bool, Option } = import! std.types\n" + PREAMBLE
+_PRIM = [False]
+_BARE = [False]
+
+
+def render(p, prim=False, bare=False):
+    """prim=True: built-in operators (#Int+ ...) and explicit imports, for runs without the implicit prelude;
+    bare=True: `error` without its type annotation (an annotation-dropping mutation: the checker decides)"""
     tree, _ = parse(p)
     o = _Out()
-    o.w(PREAMBLE)
+    _PRIM[0] = prim
+    _BARE[0] = bare
+    o.w(PREAMBLE_NOPRELUDE if prim else PREAMBLE)
     _e(o, tree, 0, 0)
     o.w("\n")
     return o.text()
@@ -76,6 +85,8 @@ def _e(o, n, depth, ctx):
         o.w(str(BIG)); return
     if g in ("add", "sub", "mul", "div", "lt", "eq", "and", "or"):
         op = {"add": "+", "sub": "-", "mul": "*", "div": "/", "lt": "<", "eq": "==", "and": "&&", "or": "||"}[g]
+        if _PRIM[0] and g not in ("and", "or"):
+            op = "#Int" + op
         o.w("("); E(k[0]); o.w(" %s " % op); E(k[1]); o.w(")"); return
     if g == "if":
         o.w("(if "); E(k[0]); o.w(" then "); E(k[1]); o.w(" else "); E(k[2]); o.w(")"); return
@@ -110,7 +121,7 @@ def _e(o, n, depth, ctx):
     if g == "err":
         # scalar / record / option typed holes carry the annotation inference needs; function types are inferred from the use
         ann = {"R": "{ x : Int, y : Int }", "O": "Option Int", "I": "Int", "B": "Bool", "F1": "Int -> Int", "F2": "Int -> Int -> Int"}.get(t)
-        if ann:
+        if ann and not _BARE[0]:
             o.w("(let q : %s = error \"boom\" in q)" % ann)
         else:
             o.w("(error \"boom\")")
@@ -168,9 +179,10 @@ def _e(o, n, depth, ctx):
         f, nn, rr = depth + 1, depth + 2, depth + 3
         o.w("(rec let v%d v%d : Int -> Int = " % (f, nn))
         c = max(ctx, o.col)
-        o.w("if (v%d < 1) || (3 < v%d) then " % (nn, nn))
+        lt = "#Int<" if _PRIM[0] else "<"
+        o.w("if (v%d %s 1) || (3 %s v%d) then " % (nn, lt, lt, nn))
         _e(o, k[0], depth + 2, c)
-        o.w(" else (let v%d = v%d (v%d - 1) in " % (rr, f, nn))
+        o.w(" else (let v%d = v%d (v%d %s 1) in " % (rr, f, nn, "#Int-" if _PRIM[0] else "-"))
         _e(o, k[1], depth + 3, c)
         o.w(") in ")
         _e(o, k[2], depth + 1, ctx)
@@ -235,9 +247,9 @@ def explain_by_dead_bindings(o, r):
     return best
 
 
-def write_cfg(name, size, prods, roots=("I",), scope=3, emit=True):
-    c = "SPECIFICATION Spec\nCONSTANTS\n  MaxSize = %d\n  MaxScope = %d\n  RootTys = {%s}\n  Emit = %s\n  Prods = {%s}\nINVARIANTS Sound\nCHECK_DEADLOCK FALSE\n" % (
-        size, scope, ", ".join('"%s"' % r for r in roots), "TRUE" if emit else "FALSE", ", ".join('"%s"' % p for p in sorted(prods)))
+def write_cfg(name, size, prods, roots=("I",), scope=3, emit=True, mutations=0):
+    c = "SPECIFICATION Spec\nCONSTANTS\n  MaxSize = %d\n  MaxScope = %d\n  RootTys = {%s}\n  Emit = %s\n  Mutations = %d\n  Prods = {%s}\nINVARIANTS Sound EmitMutant\nCHECK_DEADLOCK FALSE\n" % (
+        size, scope, ", ".join('"%s"' % r for r in roots), "TRUE" if emit else "FALSE", mutations, ", ".join('"%s"' % p for p in sorted(prods)))
     open(os.path.join(vlib.SPEC, name + ".cfg"), "w").write(c)
     return name
 
@@ -250,9 +262,9 @@ FOCUS = {
 }
 
 
-def corpus(tag, size, prods, roots=("I",), scope=3, simulate=None, depth=None, seed=None, timeout=1800, sample=None, rng_seed=1):
+def corpus(tag, size, prods, roots=("I",), scope=3, simulate=None, depth=None, seed=None, timeout=1800, sample=None, rng_seed=1, mutations=0):
     """runs TLC on Lang.tla; returns (list of outcome dicts, TlcResult)"""
-    name = write_cfg("_lang_" + tag, size, prods, roots, scope)
+    name = write_cfg("_lang_" + tag + "_%d" % os.getpid(), size, prods, roots, scope, mutations=mutations)
     outs = []
     def cb(line):
         o = vlib.tlc_value_to_json(line)
@@ -369,3 +381,192 @@ def judge(V, o, r, tag="", stats=None):
     return False
 
 
+
+
+# ---------------------------------------------------------------- value shape against a printed type
+
+def _parse_value(s):
+    """parses the harness' canonical value rendering into a tree"""
+    pos = [0]
+    def val():
+        c = s[pos[0]]
+        if c == "{":
+            pos[0] += 1
+            j = pos[0]
+            while s[pos[0]].isdigit():
+                pos[0] += 1
+            tag = int(s[j:pos[0]])
+            fields = []
+            if s[pos[0]] == "|":
+                pos[0] += 1
+                fields.append(val())
+                while s[pos[0]] == ",":
+                    pos[0] += 1
+                    fields.append(val())
+            assert s[pos[0]] == "}"
+            pos[0] += 1
+            return ("data", tag, fields)
+        if c == "[":
+            pos[0] += 1
+            xs = []
+            if s[pos[0]] != "]":
+                xs.append(val())
+                while s[pos[0]] == ",":
+                    pos[0] += 1
+                    xs.append(val())
+            pos[0] += 1
+            return ("arr", xs)
+        if c == "<":
+            j = s.index(">", pos[0])
+            t = s[pos[0]:j + 1]
+            pos[0] = j + 1
+            return ("opaque", t)
+        if c == '"':
+            j = pos[0] + 1
+            while s[j] != '"':
+                j += 2 if s[j] == "\\" else 1
+            pos[0] = j + 1
+            return ("str",)
+        j = pos[0]
+        while pos[0] < len(s) and s[pos[0]] not in ",|}]":
+            pos[0] += 1
+        tok = s[j:pos[0]]
+        if tok.endswith("b"):
+            return ("byte",)
+        if tok.startswith("f"):
+            return ("float",)
+        return ("int", int(tok))
+    return val()
+
+
+def _tokenize_type(t):
+    return re.findall(r"->|[(){}\[\],:.|]|[A-Za-z_][A-Za-z0-9_.']*|\S", t)
+
+
+def _parse_type(t):
+    toks = _tokenize_type(t)
+    pos = [0]
+    def peek():
+        return toks[pos[0]] if pos[0] < len(toks) else None
+    def eat(x=None):
+        tok = peek()
+        if x is not None and tok != x:
+            raise ValueError("expected %s got %s" % (x, tok))
+        pos[0] += 1
+        return tok
+    def typ():
+        if peek() == "forall":
+            eat()
+            while peek() != ".":
+                eat()
+            eat(".")
+            return typ()
+        if peek() == "[":          # implicit argument
+            raise ValueError("implicit")
+        a = app()
+        if peek() == "->":
+            eat()
+            return ("fn", a, typ())
+        return a
+    def app():
+        head = atom()
+        args = []
+        while peek() not in (None, "->", ")", ",", "}", "|", ":", "]"):
+            args.append(atom())
+        if args:
+            return ("app", head, args)
+        return head
+    def atom():
+        tok = peek()
+        if tok == "(":
+            eat()
+            if peek() == ")":
+                eat()
+                return ("unit",)
+            xs = [typ()]
+            while peek() == ",":
+                eat()
+                xs.append(typ())
+            eat(")")
+            return xs[0] if len(xs) == 1 else ("tuple", xs)
+        if tok == "{":
+            eat()
+            fields = []
+            while peek() != "}":
+                if peek() == "|":
+                    raise ValueError("row tail")
+                name = eat()
+                eat(":")
+                fields.append((name, typ()))
+                if peek() == ",":
+                    eat()
+            eat("}")
+            return ("record", fields)
+        if tok is None or not re.match(r"[A-Za-z_]", tok):
+            raise ValueError("atom %s" % tok)
+        eat()
+        return ("id", tok)
+    r = typ()
+    if pos[0] != len(toks):
+        raise ValueError("trailing")
+    return r
+
+
+def shape_ok(type_text, value_text):
+    """True / False / None (= not judged: the type or the value uses something this checker does not know)"""
+    try:
+        ty = _parse_type(type_text.replace("\n", " "))
+        v = _parse_value(value_text)
+    except Exception:
+        return None
+    def chk(ty, v):
+        k = ty[0]
+        if k == "fn":
+            return v[0] == "opaque"
+        if k == "unit":
+            return None
+        if k == "tuple":
+            if v[0] != "data" or len(v[2]) != len(ty[1]):
+                return False
+            rs = [chk(a, b) for a, b in zip(ty[1], v[2])]
+            return False if False in rs else (None if None in rs else True)
+        if k == "record":
+            if v[0] != "data" or len(v[2]) != len(ty[1]):
+                return False
+            rs = [chk(a[1], b) for a, b in zip(ty[1], v[2])]
+            return False if False in rs else (None if None in rs else True)
+        if k == "id":
+            name = ty[1].split(".")[-1]
+            if name == "Int":
+                return v[0] == "int"
+            if name == "Float":
+                return v[0] == "float"
+            if name == "String":
+                return v[0] == "str"
+            if name == "Byte":
+                return v[0] == "byte"
+            if name == "Bool":
+                return v[0] == "data" and v[1] in (0, 1) and not v[2]
+            if name == "L":
+                if v[0] != "data":
+                    return False
+                if v[1] == 0:
+                    return not v[2]
+                return v[1] == 1 and len(v[2]) == 2 and v[2][0][0] == "int" and chk(ty, v[2][1])
+            return None
+        if k == "app" and ty[1][0] == "id":
+            name = ty[1][1].split(".")[-1]
+            if name == "Option" and len(ty[2]) == 1:
+                if v[0] != "data":
+                    return False
+                if v[1] == 0:
+                    return not v[2]
+                return (v[1] == 1 and len(v[2]) == 1) and chk(ty[2][0], v[2][0])
+            if name == "Array" and len(ty[2]) == 1:
+                if v[0] != "arr":
+                    return False
+                rs = [chk(ty[2][0], x) for x in v[1]]
+                return False if False in rs else (None if None in rs else True)
+            return None
+        return None
+    return chk(ty, v)
